@@ -214,6 +214,26 @@ def cases(tier, seed):
                 ap = {"src": "R", "target": px, "mode": r.choice(["ao", "+o"]), "tree": r.choice([True, False]), "emdpath": None}
             yield mk_case(F, R, [ap] + [gen_append(r, F, R, X) for _ in range(r.choice([0, 1]))], foreign=X)
             continue
+        if i % 9 == 4:
+            # directed: root Metadata under overlapping names — the runtime root carries entries the file has AND entries it
+            # lacks, in either order (the union rule is per entry name, whatever the order of the entries)
+            def md(name):
+                m = gen.gen_metadata(r, set(), maxdepth=1, nmax=2)
+                m["name"] = name
+                return m
+            fn = r.sample(["cal", "m", "notes", "é", "zz"], r.choice([1, 2, 3]))
+            F["md"] = [md(n) for n in fn]
+            new = [n for n in ["cal", "m", "notes", "é", "zz", "extra"] if n not in fn][:r.choice([1, 2])]
+            rn = r.sample(fn, r.randrange(1, len(fn) + 1)) + new
+            r.shuffle(rn)
+            if r.random() < 0.6:
+                # an entry the file has FIRST, one it lacks after it
+                both = [n for n in rn if n in fn]; rest = [n for n in rn if n not in fn]
+                rn = both[:1] + rest + both[1:]
+            R["md"] = [md(n) for n in rn]
+            first = {"src": "R", "target": [], "mode": r.choice(["a", "+", "append", "ao"]), "tree": r.choice([True, True, False]), "emdpath": None}
+            yield mk_case(F, R, [first] + [gen_append(r, F, R, X) for _ in range(r.choice([0, 1]))], foreign=X)
+            continue
         if i % 17 == 5:
             # the runtime tree IS the file tree (an append that has nothing to add: a no-op in append mode, a rewrite of the
             # same content in append-over mode), then a second, ordinary append
